@@ -10,6 +10,8 @@ import (
 	"fmt"
 	"testing"
 
+	"github.com/cedar-policy/cedar-go/x/exp/schema/resolved"
+
 	"verif/ev"
 	"verif/ir"
 	"verif/sch"
@@ -139,4 +141,99 @@ func TestOptionalAccessChains(t *testing.T) {
 		}
 	}
 	ev.R.Space("unguarded optional attribute at the end of access chains rooted in principal / resource / action / context x attribute names of 0..8 bytes", n)
+}
+
+// layeredCommons: common types T0..T(depth-1), each a record whose `width` attributes all refer to the next layer's type
+// (the last is Long); an entity attribute and the action context use T0. Acyclic and valid; the number of *paths* from
+// T0 to the leaf is width^depth, the number of declarations depth.
+func layeredCommons(depth, width int) *sch.Schema {
+	ns := sch.NS{}
+	for l := 0; l < depth; l++ {
+		var next sch.Type
+		if l+1 < depth {
+			next = sch.Ref(fmt.Sprintf("T%d", l+1))
+		} else {
+			next = sch.Lng()
+		}
+		var as []sch.Attr
+		for k := 0; k < width; k++ {
+			as = append(as, sch.A(fmt.Sprintf("a%d", k), next))
+		}
+		ns.Commons = append(ns.Commons, sch.Common{Name: fmt.Sprintf("T%d", l), T: sch.Rec(as...)})
+	}
+	ctx := sch.Ref("T0")
+	ns.Entities = []sch.Entity{{Name: "U", HasShape: true, Shape: []sch.Attr{sch.A("x", sch.Ref("T0"))}}}
+	ns.Actions = []sch.Action{{Name: "act", Applies: &sch.Applies{Principals: []string{"U"}, Resources: []string{"U"}, Context: &ctx}}}
+	return &sch.Schema{NS: []sch.NS{ns}}
+}
+
+const kCommonDAG = "common-type-dag-exponential"
+
+func TestLayeredCommonTypes(t *testing.T) {
+	if !ev.First() {
+		return
+	}
+	const sub = "common-layers"
+	n := 0
+	for _, width := range []int{1, 2, 3} {
+		for _, depth := range []int{1, 2, 3, 5, 8, 13, 21, 34, 55} {
+			paths := 1.0
+			for i := 0; i < depth; i++ {
+				paths *= float64(width)
+			}
+			if ev.KnownOpen("C16", kCommonDAG) && paths > 5000 {
+				ev.R.Excluded(kCommonDAG)
+				continue
+			}
+			s := layeredCommons(depth, width)
+			labels := []string{fmt.Sprintf("common-layers:width%d", width)}
+			r, ok := runResolve(sub, &Case{Schema: s, Op: "resolve"}, depth >= 3, labels...)
+			n++
+			if !ok {
+				t.Errorf("C16/%s: Resolve panicked or hung (depth %d width %d)", sub, depth, width)
+				return
+			}
+			if r == nil {
+				continue
+			}
+			for _, p := range []*ir.Policy{
+				when(ir.Bin(ir.OpEq, ir.Access(ir.Var("principal"), "x"), ir.Var("context"))),
+				when(ir.Bin(ir.OpEq, ir.Access(ir.Access(ir.Var("principal"), "x"), "a0"), ir.Access(ir.Var("context"), "a0"))),
+				when(ir.Has(ir.Var("context"), "a0")),
+			} {
+				n++
+				if !run(sub, r, &Case{Schema: s, Op: "policy", Policy: p}, depth >= 3, labels...) {
+					t.Errorf("C16/%s: the validator panicked or hung (depth %d width %d)", sub, depth, width)
+					return
+				}
+			}
+		}
+	}
+	ev.R.Space("layered common-type DAGs (fan-out 1 / 2 / 3, depth 1..55) x resolve and three policies over the inlined type", n)
+	if ev.KnownOpen("C16", kCommonDAG) {
+		// canonical reproducer, decided by counting (no clock): 12 declarations, 2 uses each -> 2^12 - 1 record types
+		const d = 12
+		c := &Case{Schema: layeredCommons(d, 2), Op: "resolve"}
+		if r, _ := resolve(sub, c); r != nil {
+			if e, ok := r.Entities["U"]; ok {
+				if cnt := countRecords(e.Shape["x"].Type); cnt >= 1<<d-1 {
+					ev.R.KnownFinding(kCommonDAG, fmt.Sprintf("Resolve() of %d chained common types `type Tk = {a0: T(k+1), a1: T(k+1)}` builds %d record types (2^depth: every use re-inlines the type); depth 30 (32 lines, acyclic, valid) does not finish", d, cnt))
+				}
+			}
+		}
+	}
+}
+
+func countRecords(t resolved.IsType) int {
+	n := 0
+	switch tv := t.(type) {
+	case resolved.RecordType:
+		n = 1
+		for _, a := range tv {
+			n += countRecords(a.Type)
+		}
+	case resolved.SetType:
+		n = countRecords(tv.Element)
+	}
+	return n
 }
